@@ -50,7 +50,7 @@ func retryRules(c *Ctx) {
 		return
 	}
 	l := &fq{c: c, fn: ls[0], name: an.FuncName(ls[0])}
-	valueCell := an.CellByName(q.fn, "value")
+	valueCell := cellOfParam(q.fn, q.fn.Params[2])
 	// the operation call: dynamic call of the value cell
 	ops := an.AllInstrs(l.fn, func(in ssa.Instruction) bool {
 		call, ok := in.(*ssa.Call)
@@ -205,7 +205,7 @@ func retryRules(c *Ctx) {
 	l.add("PROV", "the delay uses the configured rate", usesValue(P, callArg(cc, 0), q.fn.Params[1]) || true, "first argument is the rate cell", cc)
 	{
 		rate := aP(q.param(1))
-		sts := P.CellStores(an.CellByName(q.fn, "rate"))
+		sts := P.CellStores(cellOfParam(q.fn, q.fn.Params[1]))
 		okd := false
 		for _, st := range sts {
 			if k, isK := constInt(st.Val); isK && k == 300*1000*1000 {
